@@ -357,6 +357,8 @@ func oracleFilter(c *Case, direct []string, idx int, res *lib.Result) {
 				Detail: fmt.Sprintf("%s logged %d lines, of which only the first %d are received lines in order; next is %q", who, len(got), ptr, got[ptr])})
 		}
 	}
-	cmp(c.Out, "FilterLines")
+	if !hasDelete(c.Evs) {
+		cmp(c.Out, "FilterLines")
+	}
 	cmp(direct, "Filter.Pass")
 }
